@@ -5,6 +5,8 @@ import (
 	"fmt"
 	"go/ast"
 	"go/token"
+	"go/types"
+	"sort"
 	"strings"
 )
 
@@ -107,6 +109,9 @@ func (f *impFn) assigned(nodes ...ast.Node) []string {
 				if exprText(s.Fun) == "copy" && len(s.Args) > 0 {
 					set[rootOf(s.Args[0])] = true
 				}
+				if exprText(s.Fun) == "io.ReadFull" && len(s.Args) == 2 {
+					set[rootOf(s.Args[0])], set[rootOf(s.Args[1])] = true, true
+				}
 				if f.p.tg.digest {
 					f.digestAssigned(s, set)
 				}
@@ -117,6 +122,11 @@ func (f *impFn) assigned(nodes ...ast.Node) []string {
 					if id, ok := se.X.(*ast.Ident); ok {
 						if t := f.lookup(id.Name); t != nil && (t.k == "elem" || (t.k == "bigint" && (se.Sel.Name == "Neg" || se.Sel.Name == "SetBytes" || se.Sel.Name == "Mod" || se.Sel.Name == "SetString" || (se.Sel.Name == "Set" && f.p.tg.grp != "")))) {
 							set[id.Name] = true
+						}
+						if t := f.lookup(id.Name); t != nil && t.k == "struct" && id.Name == f.recv {
+							if m := f.p.recvMeths[se.Sel.Name]; m != nil && m.mutates {
+								set[id.Name] = true
+							}
 						}
 					}
 					if ix, ok := se.X.(*ast.IndexExpr); ok { // xs[i].M(…) on a slice of elements: xs is updated
@@ -260,7 +270,21 @@ func (f *impFn) upd(lhs ast.Expr, val string, c *ictx) (string, string) {
 		}
 		return v.Name, val
 	case *ast.SelectorExpr:
+		bt := exprText(v.X)
+		wasFresh, wasNN := f.nonNil[freshKey+bt], f.nonNil[bt]
+		sv := f.saveFresh()
 		xs, xt := f.expr(v.X, nil, c)
+		f.restoreFresh(sv)
+		if xt.k == "lptr" {
+			// write to a field of a list node: a value update of the path only if no other pointer to the node exists
+			if !wasFresh || !wasNN {
+				f.p.die(lhs, "write through the list pointer %s, which is not known to be fresh (`%s = &T{…}` just before, not read as a value since): the node could be shared", bt, bt)
+			}
+			if v.Sel.Name == f.p.listNext[xt.elem.name] {
+				f.p.die(lhs, "assignment to the link field of a list node")
+			}
+			return f.upd(v.X, "({ nodeOf "+parenImp(xs)+" with "+v.Sel.Name+" := "+val+" } :: "+parenImp(xs)+".tail)", c)
+		}
 		if xt.k == "ptr" {
 			f.p.die(lhs, "write through the pointer %s (outside the subset: pointers are immutable values)", exprText(v.X))
 		}
@@ -366,6 +390,29 @@ func (f *impFn) simple(s ast.Stmt, prev ast.Stmt, c *ictx) []string {
 				ns := names(xt.elem, tyBool)
 				return []string{"let (" + ns[0] + ", " + ns[1] + ") := " + parenImp(xs) + ".lookup " + parenImp(ks)}
 			}
+			if call, ok := v.Rhs[0].(*ast.CallExpr); ok && exprText(call.Fun) == "io.ReadFull" && len(call.Args) == 2 && f.lookup("io") == nil {
+				// n, err := io.ReadFull(r, buf): buf must be the local created by make in the statement just before (nobody else holds it)
+				rid, ok1 := call.Args[0].(*ast.Ident)
+				bid, ok2 := call.Args[1].(*ast.Ident)
+				if !ok1 || !ok2 {
+					p.die(s, "io.ReadFull form (only variables)")
+				}
+				rt, bt := f.lookup(rid.Name), f.lookup(bid.Name)
+				if rt == nil || rt.k != "reader" || bt == nil || !bt.eq(tyBytes) {
+					p.die(s, "io.ReadFull(%v, %v)", rt, bt)
+				}
+				okPrev := false
+				if pa, ok := prev.(*ast.AssignStmt); ok && len(pa.Lhs) == 1 && len(pa.Rhs) == 1 && exprText(pa.Lhs[0]) == bid.Name {
+					if mk, ok := pa.Rhs[0].(*ast.CallExpr); ok && exprText(mk.Fun) == "make" {
+						okPrev = true
+					}
+				}
+				if !okPrev {
+					p.die(s, "io.ReadFull into a buffer that was not created by make in the statement just before (it could be aliased)")
+				}
+				ns := names(tyInt, tyErr)
+				return []string{"let (" + lname(rid.Name) + ", " + lname(bid.Name) + ", " + ns[0] + ", " + ns[1] + ") := readFull " + lname(rid.Name) + " " + lname(bid.Name)}
+			}
 			if call, ok := v.Rhs[0].(*ast.CallExpr); ok {
 				if x, m, ok := f.hashCall(call, c); ok && m == "Write" && len(call.Args) == 1 {
 					xs, _ := f.expr(x, nil, c)
@@ -404,7 +451,7 @@ func (f *impFn) simple(s ast.Stmt, prev ast.Stmt, c *ictx) []string {
 		if len(v.Lhs) != 1 || len(v.Rhs) != 1 {
 			p.die(s, "assignment arity")
 		}
-		if call, ok := v.Rhs[0].(*ast.CallExpr); ok && exprText(call.Fun) == "append" {
+		if call, ok := v.Rhs[0].(*ast.CallExpr); ok && exprText(call.Fun) == "append" && !isCopyAppend(call) {
 			if exprText(v.Lhs[0]) != exprText(call.Args[0]) {
 				p.die(s, "append whose result is not stored back into its first argument")
 			}
@@ -433,8 +480,12 @@ func (f *impFn) simple(s ast.Stmt, prev ast.Stmt, c *ictx) []string {
 				f.bigFresh[id.Name], f.bigUninit[id.Name] = true, true
 				return []string{"let " + lname(id.Name) + " : Int := 0  -- pool.BigInt.Get(): a fresh scratch object (contents unspecified: checked to be set before it is read, not to escape, not to be used after Put)"}
 			}
+			nn, _ := f.rhsNonNil(v.Rhs[0])
 			es, et := f.expr(v.Rhs[0], nil, c)
 			f.declare(s, id.Name, et)
+			if et.k == "lptr" && nn {
+				f.nonNil[id.Name] = true
+			}
 			if _, isLit := v.Rhs[0].(*ast.BasicLit); isLit || et.k == "struct" {
 				return []string{"let " + lname(id.Name) + " : " + p.lty(et, true) + " := " + es}
 			}
@@ -474,13 +525,33 @@ func (f *impFn) simple(s ast.Stmt, prev ast.Stmt, c *ictx) []string {
 				delete(f.bigFresh, id.Name)
 			}
 		}
+		sv0 := f.saveFresh()
 		lt := f.lhsType(v.Lhs[0], c)
+		f.restoreFresh(sv0) // typing the left-hand side reads nothing
+		nn, lit := f.rhsNonNil(v.Rhs[0])
 		es, et := f.expr(v.Rhs[0], lt, c)
 		if !et.eq(lt) {
 			p.die(s, "assignment of %v to %v", et, lt)
 		}
+		nodeBase := ""
+		if se, ok := v.Lhs[0].(*ast.SelectorExpr); ok {
+			sv := f.saveFresh()
+			if _, bt := f.expr(se.X, nil, c); bt.k == "lptr" {
+				nodeBase = exprText(se.X)
+			}
+			f.restoreFresh(sv)
+		}
 		root, nv := f.upd(v.Lhs[0], es, c)
 		f.killGuards(exprText(v.Lhs[0]))
+		if lt.k == "lptr" && nn {
+			f.nonNil[exprText(v.Lhs[0])] = true
+			if lit {
+				f.nonNil[freshKey+exprText(v.Lhs[0])] = true
+			}
+		}
+		if nodeBase != "" { // a field of the (fresh) node was written: the pointer itself is what it was
+			f.nonNil[nodeBase], f.nonNil[freshKey+nodeBase] = true, true
+		}
 		return []string{"let " + lname(root) + " := " + nv}
 	case *ast.IncDecStmt:
 		xs, xt := f.expr(v.X, nil, c)
@@ -649,6 +720,16 @@ func (f *impFn) simple(s ast.Stmt, prev ast.Stmt, c *ictx) []string {
 					}
 					p.die(s, "big.Int method %s as a statement", se.Sel.Name)
 				}
+			}
+		}
+		if se, ok := call.Fun.(*ast.SelectorExpr); ok && f.recv != "" && !f.evRecv && exprText(se.X) == f.recv {
+			if m := p.recvMeths[se.Sel.Name]; m != nil {
+				if !m.mutates || len(m.results) != 0 {
+					p.die(s, "call statement of the method %s (only methods without results that modify the receiver)", se.Sel.Name)
+				}
+				txt := f.recvMethodCall(call, se.Sel.Name, m, c)
+				f.killGuards(f.recv)
+				return []string{"let " + lname(f.recv) + " := " + txt}
 			}
 		}
 		if se, ok := call.Fun.(*ast.SelectorExpr); ok && p.tg.mode == "h2f" {
@@ -858,6 +939,16 @@ func (f *impFn) simple(s ast.Stmt, prev ast.Stmt, c *ictx) []string {
 	return nil
 }
 
+// append(x[:0:0], x...): a fresh copy of x
+func isCopyAppend(v *ast.CallExpr) bool {
+	if exprText(v.Fun) != "append" || !v.Ellipsis.IsValid() || len(v.Args) != 2 {
+		return false
+	}
+	isZero := func(e ast.Expr) bool { b, ok := e.(*ast.BasicLit); return e == nil || (ok && b.Value == "0") }
+	se, ok := v.Args[0].(*ast.SliceExpr)
+	return ok && se.Slice3 && isZero(se.Low) && se.High != nil && isZero(se.High) && se.Max != nil && isZero(se.Max) && exprText(se.X) == exprText(v.Args[1])
+}
+
 func indent(lines []string, ind string) string {
 	for i := range lines {
 		lines[i] = ind + lines[i]
@@ -887,6 +978,9 @@ func (f *impFn) seq(list []ast.Stmt, k *kont, c *ictx, ind string, prev ast.Stmt
 		return f.enter(k, c, ind)
 	}
 	s, rest := list[0], list[1:]
+	if _, ok := s.(*ast.IfStmt); !ok {
+		f.seenStmt = true
+	}
 	switch v := s.(type) {
 	case *ast.ReturnStmt:
 		if f.retSelf {
@@ -910,6 +1004,21 @@ func (f *impFn) seq(list []ast.Stmt, k *kont, c *ictx, ind string, prev ast.Stmt
 		}
 		var vals []string
 		for i, r := range v.Results {
+			if w := f.results[i]; w.k == "nslice" {
+				if id, ok := r.(*ast.Ident); ok && id.Name == "nil" && f.lookup("nil") == nil {
+					vals = append(vals, "none")
+					continue
+				}
+				es, et := f.expr(r, w.elem, c)
+				if et.eq(w) {
+					vals = append(vals, es)
+				} else if et.eq(w.elem) {
+					vals = append(vals, "some "+parenImp(es))
+				} else {
+					p.die(r, "return value %d: %v expected, %v given", i, w.elem, et)
+				}
+				continue
+			}
 			if id, ok := r.(*ast.Ident); ok && f.results[i].k == "ptr" && id.Name == f.recv && f.recvTy.eq(f.results[i].elem) {
 				vals = append(vals, "some "+lname(f.recv)) // the returned pointer is the receiver
 				continue
@@ -926,6 +1035,30 @@ func (f *impFn) seq(list []ast.Stmt, k *kont, c *ictx, ind string, prev ast.Stmt
 		f.push()
 		return f.seq(v.List, &kont{list: rest, next: k, depth: d, nonNil: copySet(f.nonNil), top: top}, c, ind, nil, false)
 	case *ast.IfStmt:
+		if top && prev == nil && v.Init == nil && v.Else == nil && len(v.Body.List) == 1 && f.ncont == 0 && f.nloop == 0 && !f.seenStmt {
+			if es, ok := v.Body.List[0].(*ast.ExprStmt); ok {
+				if call, ok := es.X.(*ast.CallExpr); ok && exprText(call.Fun) == "panic" && len(call.Args) == 1 && f.lookup("panic") == nil {
+					// `if cond { panic(…) }` as the FIRST statement: the def describes the calls that do not panic here; the condition
+					// (a function of the arguments) is emitted as `<fn>.panics`
+					if _, ok := call.Args[0].(*ast.BasicLit); !ok {
+						p.die(s, "panic argument (only a literal)")
+					}
+					u := &iuses{}
+					cs, ct := f.expr(v.Cond, tyBool, &ictx{uses: u})
+					if ct.k != "bool" || u.W || u.H || u.S || u.B {
+						p.die(s, "panic condition")
+					}
+					var params []string
+					for _, x := range f.freeVars(v.Cond) {
+						params = append(params, "("+lname(x)+" : "+p.lty(f.lookup(x), false)+")")
+					}
+					f.helpers = append(f.helpers, fmt.Sprintf("/-- %s, line %d: the call panics (%s) exactly when this holds; the def below describes the other calls -/\ndef %s.panics %s : Bool :=\n  %s\n",
+						f.name, f.lineNo(s), strings.ReplaceAll(exprText(call.Args[0]), "-/", "- /"), f.name, strings.Join(params, " "), cs))
+					return ind + fmt.Sprintf("-- line %d: if %s { panic } — see %s.panics", f.lineNo(s), types.ExprString(v.Cond), f.name) + "\n" + f.seq(rest, k, c, ind, nil, top)
+				}
+			}
+		}
+		f.seenStmt = true
 		return f.ifStmt(v, rest, k, c, ind, top)
 	case *ast.RangeStmt:
 		return f.rangeStmt(v, rest, k, c, ind, top)
@@ -1035,7 +1168,7 @@ func (f *impFn) ifStmt(v *ast.IfStmt, rest []ast.Stmt, k *kont, c *ictx, ind str
 	}
 	kg := map[string]bool{}
 	for g := range f.nonNil {
-		if !touched[rootName(g)] {
+		if !touched[rootName(g)] && !strings.HasPrefix(g, freshKey) {
 			kg[g] = true
 		}
 	}
@@ -1099,9 +1232,19 @@ func (f *impFn) ifStmt(v *ast.IfStmt, rest []ast.Stmt, k *kont, c *ictx, ind str
 			p.die(v, "if statement without effect on live variables")
 		}
 		mt := impTuple(lnames(M))
-		cc := &ictx{ret: func(string) string { p.die(v, "internal: return in a value-joined if"); return "" }, fall: func() string { return mt }, inLoop: c.inLoop, uses: c.uses}
+		var ends []map[string]bool // guards (and fresh marks) that hold where a branch ends
+		cc := &ictx{ret: func(string) string { p.die(v, "internal: return in a value-joined if"); return "" }, fall: func() string { ends = append(ends, copySet(f.nonNil)); return mt }, inLoop: c.inLoop, uses: c.uses}
 		th := branch(v.Body.List, posG, nil, cc, ind+"    ")
 		el := branch(elseList, nil, nil, cc, ind+"    ")
+		if len(ends) == 2 { // what holds at the end of both branches holds afterwards (variables of the enclosing scopes only)
+			f.restore(ss, sg)
+			f.popTo(depth0)
+			for g := range ends[0] {
+				if ends[1][g] && f.lookup(rootName(strings.TrimPrefix(g, freshKey))) != nil {
+					K.nonNil[g] = true
+				}
+			}
+		}
 		out := head + ind + "let " + mt + " :=\n" + ind + "  if " + cond + " then\n" + th + "\n" + ind + "  else\n" + el + "\n"
 		f.restore(ss, sg)
 		return out + f.enter(K, c, ind)
@@ -1109,10 +1252,12 @@ func (f *impFn) ifStmt(v *ast.IfStmt, rest []ast.Stmt, k *kont, c *ictx, ind str
 	if nfall == 0 && len(rest) > 0 {
 		p.die(rest[0], "unreachable statement")
 	}
-	if nfall == 2 {
+	if nfall == 2 && !c.inLoop {
 		f.restore(ss, sg)
 		K = f.mkCont(K, c)
 	}
+	// (inside a loop body a join point cannot be a helper def — it would have to call the loop: the continuation is translated
+	// once per falling branch instead)
 	th := branch(v.Body.List, posG, K, c, ind+"  ")
 	var el string
 	if v.Else == nil {
@@ -1173,7 +1318,7 @@ func (f *impFn) mkCont(K *kont, c *ictx) *kont {
 
 func (f *impFn) retTy() string {
 	var ts []string
-	if f.recv != "" {
+	if f.recv != "" && !f.recvRO {
 		ts = append(ts, f.p.ltyA(f.recvTy, false))
 	}
 	var rs []string
@@ -1453,15 +1598,25 @@ func (f *impFn) forStmt(v *ast.ForStmt, rest []ast.Stmt, k *kont, c *ictx, ind s
 	cc := &ictx{inLoop: true, uses: u, loopDepth: len(f.scopes),
 		ret: func(vals string) string { return "(" + st + ", some " + parenImp(vals) + ")" },
 		brk: func() string { return exit }}
+	f.dropFresh("")
+	inv := f.invariantGuards(nodes...)
 	ss, sg := f.snap()
 	f.loopGuards(S)
+	for _, g := range inv {
+		f.nonNil[g] = true
+	}
 	cond := "true"
+	var condG []string
 	if v.Cond != nil {
 		cs, ct := f.expr(v.Cond, tyBool, cc)
 		if ct.k != "bool" {
 			p.die(v, "loop condition type")
 		}
 		cond = cs
+		nilTests(v.Cond, token.LAND, token.NEQ, &condG)
+	}
+	for _, g := range condG { // the body runs under the loop condition
+		f.nonNil[g] = true
 	}
 	cc.fall = func() string {
 		post := ""
@@ -1473,6 +1628,7 @@ func (f *impFn) forStmt(v *ast.ForStmt, rest []ast.Stmt, k *kont, c *ictx, ind s
 		return post + name + hole + " fuel_ " + strings.Join(lnames(S), " ")
 	}
 	f.push()
+	nf0 := len(f.fuels)
 	uninit0 := copySet(f.bigUninit)
 	body := f.seq(v.Body.List, nil, cc, "      ", nil, false)
 	if len(uninit0) > 0 { // the body may run zero times: what was unset before the loop is still unset after it
@@ -1481,6 +1637,10 @@ func (f *impFn) forStmt(v *ast.ForStmt, rest []ast.Stmt, k *kont, c *ictx, ind s
 	f.restore(ss, sg)
 	roArgs := ""
 	var roParams []string
+	for _, fu := range f.fuels[nf0:] { // fuel of the calls made by the body
+		roArgs += " " + fu
+		roParams = append(roParams, "("+fu+" : Nat)")
+	}
 	for _, x := range ro {
 		if t := f.lookup(x); t.k == "waitgroup" {
 			continue
@@ -1528,6 +1688,9 @@ func (f *impFn) forStmt(v *ast.ForStmt, rest []ast.Stmt, k *kont, c *ictx, ind s
 	for _, s := range S {
 		f.killGuards(s)
 	}
+	for _, g := range inv {
+		f.nonNil[g] = true
+	}
 	head := ""
 	if len(pre) > 0 {
 		head = indent(pre, ind) + "\n"
@@ -1554,6 +1717,84 @@ func (f *impFn) assignedAnywhere(n ast.Node) []string {
 		}
 		return true
 	})
+	return out
+}
+
+// guards that hold now and that every statement of the loop keeps: each assignment that overlaps the guarded path assigns exactly
+// that path a syntactically non-nil pointer (`&T{…}` or the result of a function all of whose returns are `&T{…}`); a method call
+// on the root variable, a tuple assignment or copy() into it breaks the guard
+func (f *impFn) invariantGuards(nodes ...ast.Node) []string {
+	var out []string
+	for g := range f.nonNil {
+		if strings.HasPrefix(g, freshKey) {
+			continue
+		}
+		ok := true
+		root := g
+		if i := strings.IndexAny(g, ".["); i >= 0 {
+			root = g[:i]
+		}
+		for _, n := range nodes {
+			ast.Inspect(n, func(m ast.Node) bool {
+				switch s := m.(type) {
+				case *ast.AssignStmt:
+					for i, l := range s.Lhs {
+						lt := exprText(l)
+						if !(pathPrefix(lt, g) || pathPrefix(g, lt)) {
+							continue
+						}
+						if lt != g { // a shorter path (the whole struct) or a field below the guarded pointer
+							if pathPrefix(lt, g) {
+								ok = false
+							}
+							continue
+						}
+						if len(s.Lhs) != len(s.Rhs) {
+							ok = false
+							continue
+						}
+						u, isAddr := s.Rhs[i].(*ast.UnaryExpr)
+						_, isLit := (func() (ast.Expr, bool) {
+							if isAddr && u.Op == token.AND {
+								cl, ok := u.X.(*ast.CompositeLit)
+								return cl, ok
+							}
+							return nil, false
+						})()
+						isRes := false
+						if c, isCall := s.Rhs[i].(*ast.CallExpr); isCall {
+							if id, isId := c.Fun.(*ast.Ident); isId && f.lookup(id.Name) == nil && f.p.translated[id.Name] != nil && f.p.translated[id.Name].nonNilRe {
+								isRes = true
+							}
+						}
+						if !isLit && !isRes {
+							ok = false
+						}
+					}
+				case *ast.IncDecStmt:
+					if pathPrefix(exprText(s.X), g) {
+						ok = false
+					}
+				case *ast.RangeStmt:
+					if (s.Key != nil && exprText(s.Key) == root) || (s.Value != nil && exprText(s.Value) == root) {
+						ok = false
+					}
+				case *ast.CallExpr:
+					if exprText(s.Fun) == "copy" && len(s.Args) > 0 && pathPrefix(exprText(s.Args[0]), g) {
+						ok = false
+					}
+					if se, isSel := s.Fun.(*ast.SelectorExpr); isSel && (pathPrefix(exprText(se.X), g) || pathPrefix(g, exprText(se.X))) {
+						ok = false // a method call on the path (Write / Reset / a method of the receiver)
+					}
+				}
+				return true
+			})
+		}
+		if ok {
+			out = append(out, g)
+		}
+	}
+	sort.Strings(out)
 	return out
 }
 
@@ -1596,11 +1837,26 @@ func (f *impFn) checkFreshLocal(at ast.Node, x string) {
 			}
 		}
 	}
+	selfAppend := map[*ast.CallExpr]bool{} // x = append(x, …) with x nowhere among the appended values: x stays the only holder of its array
 	ast.Inspect(f.fd.Body, func(n ast.Node) bool {
 		switch s := n.(type) {
 		case *ast.AssignStmt:
 			for i, l := range s.Lhs {
 				if id, ok := l.(*ast.Ident); ok && id.Name == x && i < len(s.Rhs) {
+					if ap, ok := s.Rhs[i].(*ast.CallExpr); ok && exprText(ap.Fun) == "append" && len(ap.Args) >= 1 && !ap.Ellipsis.IsValid() && f.p.tg.methodCalls {
+						if a0, ok := ap.Args[0].(*ast.Ident); ok && a0.Name == x {
+							clean := true
+							for _, a := range ap.Args[1:] {
+								if strip(a) == x {
+									clean = false
+								}
+							}
+							if clean {
+								selfAppend[ap] = true
+								continue
+							}
+						}
+					}
 					if mk, ok := s.Rhs[i].(*ast.CallExpr); !ok || exprText(mk.Fun) != "make" {
 						f.p.die(s, "%s is written in place but assigned something else than make(…)", x)
 					}
@@ -1621,7 +1877,7 @@ func (f *impFn) checkFreshLocal(at ast.Node, x string) {
 				}
 			}
 		case *ast.CallExpr:
-			if exprText(s.Fun) == "append" {
+			if exprText(s.Fun) == "append" && !selfAppend[s] {
 				for _, a := range s.Args {
 					if strip(a) == x {
 						f.p.die(s, "%s is written in place and appended here", x)
